@@ -34,7 +34,7 @@ def norm_gamma(g: dict) -> dict:
     d = {"strategy": "plain", "L": 1, "nrow": 6, "header": "explicit", "footnote": None, "source": None,
          "new_page": False, "pageby_row": "column", "pageby_header": True, "place": ["all", "last", "last"],
          "font": 1, "size": 9, "inner_repeat": True, "heights": [1, 2, 3], "group_cols_reversed": False, "recur": False,
-         "numeric_groups": False, "dup_narrow": False, "padded": False, "nulls": False, "other_col_size": None}
+         "numeric_groups": False, "dup_narrow": False, "padded": False, "nulls": False, "other_col_size": None, "group_by_lines": None}
     d.update(g)
     if d["strategy"] == "plain":
         d["L"] = 0
@@ -44,7 +44,7 @@ def norm_gamma(g: dict) -> dict:
 def alphabet(gamma: dict, divider: bool = False, nulls: bool = False):
     g = norm_gamma(gamma)
     groups = [0]
-    if g["strategy"] in ("page_by", "subline+page_by"):
+    if g["strategy"] in ("page_by", "subline+page_by", "group_by"):
         groups += list(range(1, g["L"] + 1))
     if g["strategy"] == "subline":
         groups += list(range(1, g["L"] + 1))
@@ -146,7 +146,7 @@ def spec_of(gamma: dict, hist) -> dict:
     if g.get("other_col_size"):
         # per-column font sizes: the tall column keeps the layout's size, the other data column gets another one; the vector
         # is given per DataFrame column (group columns first), as the library documents it
-        ngrp = {"plain": 0, "page_by": g["L"], "subline": g["L"], "subline+page_by": g["L"] + 1}[g["strategy"]]
+        ngrp = {"plain": 0, "page_by": g["L"], "subline": g["L"], "subline+page_by": g["L"] + 1, "group_by": g["L"]}[g["strategy"]]
         body["text_font_size"] = [[g["size"]] * ngrp + [g["size"], g["other_col_size"]]]
     if body:
         spec["body"] = body
@@ -164,6 +164,10 @@ def spec_of(gamma: dict, hist) -> dict:
         if g.get("group_cols_reversed") and g["L"] >= 2:
             # the page_by columns sit in the DataFrame in the opposite order of the page_by list, after the data columns
             spec["colorder"] = ["c0"] + [f"g{l}" for l in reversed(range(g["L"]))] + ["c1"]
+    elif strat == "group_by":
+        # value suppression, no headings: the group value text itself wraps to group_by_lines lines in its column
+        spec["group_by"] = pb
+        spec["group_by_lines"] = g.get("group_by_lines") or 1
     elif strat == "subline":
         spec["subline_by"] = pb  # L subline columns
     elif strat == "subline+page_by":
